@@ -40,6 +40,7 @@ def hdataGen : HData where
   newline := Gen.Rules.dispatcherNewlineStr
   identifierKinds := Gen.Defs.identifierKinds
   elisionKinds := Gen.Defs.elisionKinds
+  emptyIndentFallsBack := Gen.Rules.indentatorEmptyFallsBack
 
 def tablesGen : Tables where
   defs := Gen.Defs.definitions
